@@ -51,6 +51,7 @@ class Unit:
         self.name = name
         self.design_id = name
         self.items = []
+        self.uses = []
         self.hoists = {}
 
 
@@ -81,6 +82,8 @@ def parse_recipe(path, name):
             rest = rest.strip()
             if key == "@unit":
                 u.design_id = rest
+            elif key == "@use":
+                u.uses.append(rest)
             elif key == "@source":
                 source = rest
             elif key == "@item":
